@@ -329,6 +329,35 @@ def run_impl(case):
                 feat_probs.append((kind, f"{tag}: network input {str(got.reshape(-1)[:8].tolist())} is not the expected encoding {str(exp.reshape(-1)[:8].tolist())} of the observation"))
 
     bm = batch(many)
+    extra = {}
+    # (a) state / episode_start are passed through untouched by non-recurrent policies
+    try:
+        st_in = (np.zeros((1, 2), dtype=np.float32),)
+        a0, _ = model.predict(one, deterministic=True)
+        a1, st_out = model.predict(one, state=st_in, episode_start=np.array([True]), deterministic=True)
+        extra["state"] = {"same_object": st_out is st_in, "same_action": bool(np.array_equal(a0, a1)), "none_when_none": model.predict(one, deterministic=True)[1] is None}
+    except Exception as ex:  # noqa: BLE001
+        extra["state"] = {"exception": repr(ex)[:200]}
+    # (b) Box actions: what predict() returns vs the policy's low-level output (actor / _predict)
+    if isinstance(ac, spaces.Box):
+        try:
+            with th.no_grad():
+                obs_t, _ = pol.obs_to_tensor(bm)
+                raw = pol._predict(obs_t, deterministic=True).cpu().numpy()
+                act_raw = pol.actor(obs_t, deterministic=True).cpu().numpy() if hasattr(pol, "actor") and algo in ("SAC", "TD3", "DDPG") else None
+            pred = model.predict(bm, deterministic=True)[0]
+            extra["lowlevel"] = {"raw_shape": list(raw.shape), "raw": raw.reshape(n, -1)[0].astype(np.float64).tolist(), "pred": np.asarray(pred).reshape(n, -1)[0].astype(np.float64).tolist(),
+                                 "lo": np.asarray(ac.low, dtype=np.float64).reshape(-1).tolist(), "hi": np.asarray(ac.high, dtype=np.float64).reshape(-1).tolist(),
+                                 "squash": bool(pol.squash_output), "raw_min": float(raw.min()), "raw_max": float(raw.max()),
+                                 "actor_same": None if act_raw is None else bool(np.array_equal(act_raw, raw))}
+        except Exception as ex:  # noqa: BLE001
+            extra["lowlevel"] = {"exception": repr(ex)[:200]}
+    # (c) MultiDiscrete observations: the feature row of the single observation
+    md_row = None
+    for rec in trials:
+        if rec["name"] == "single" and isinstance(pspace, spaces.MultiDiscrete) and rec.get("feat") is not None:
+            md_row = {"nvec": [int(x) for x in pspace.nvec], "vals": [int(x) for x in np.asarray(one).reshape(-1)], "feat": np.asarray(rec["feat"]).reshape(-1).astype(int).tolist()}
+    extra["md_row"] = md_row
     for rec in trials:
         got = rec.pop("feat", None)
         gotd = rec.pop("feat_dict", None)
@@ -353,7 +382,7 @@ def run_impl(case):
             return {"kind": "multidiscrete", "k": len(sp.nvec)}
         return {"kind": "multibinary", "shape": list(sp.shape)}
 
-    return {"trials": trials, "pspace": space_desc(pspace), "ashape": list(ac.shape), "feat_probs": feat_probs, "squash": bool(getattr(pol, "squash_output", False))}
+    return {"trials": trials, "pspace": space_desc(pspace), "ashape": list(ac.shape), "feat_probs": feat_probs, "squash": bool(getattr(pol, "squash_output", False)), "extra": extra}
 
 
 def _worker(case):
@@ -389,6 +418,16 @@ def model_exprs(case, impl):
             ex.append(f"check_predict {coq_space(ps)} {ash} {coq_list(t['in_shape'], coq_Z)}")
     if ps["kind"] == "discrete":
         ex.append(f"onehot {coq_nat(ps['n'])} {coq_nat(ps['n'] // 2)}")
+    xt = impl.get("extra", {})
+    if xt.get("md_row"):
+        ex.append(f"onehot_concat {coq_list(xt['md_row']['nvec'], coq_nat)} {coq_list(xt['md_row']['vals'], coq_nat)}")
+    ll = xt.get("lowlevel")
+    if ll and "exception" not in ll:
+        from fractions import Fraction
+
+        q = lambda x: common.coq_Q(Fraction(float(x)))  # noqa: E731
+        items = [f"({q(lo)}, {q(hi)}, {q(x)}, {q(p)})" for lo, hi, x, p in zip(ll["lo"], ll["hi"], ll["raw"], ll["pred"])]
+        ex.append(f"check_values {coq_bool(ll['squash'])} {coq_list(items)}")
     return ex
 
 
@@ -438,6 +477,44 @@ def judge(case, impl, vals):
         if "exception" in t and t["name"] in ("single", "single_stochastic", "batch1", "batchn", "python_int", "eps_single", "eps_batchn", "alt_layout_single", "alt_layout_batchn", "float_image_single", "float_image_batchn"):
             probs.append(("oracle-wellformed-input-rejected", f"{t['name']} (input shape {t['in_shape']}): {t['exception']}"))
     probs += [tuple(p) for p in impl["feat_probs"]]
+    xt = impl.get("extra", {})
+    k = len(impl["trials"]) + (1 if ps["kind"] == "discrete" else 0)
+    if xt.get("md_row"):
+        if vals[k] != xt["md_row"]["feat"]:
+            probs.append(("model-correspondence-onehot-concat", f"MultiDiscrete observation {xt['md_row']['vals']} of nvec {xt['md_row']['nvec']}: network input {xt['md_row']['feat']}, model {vals[k]}"))
+        want, off = [0] * sum(xt["md_row"]["nvec"]), 0
+        for nv, v in zip(xt["md_row"]["nvec"], xt["md_row"]["vals"]):
+            want[off + v] = 1
+            off += nv
+        if want != xt["md_row"]["feat"]:
+            probs.append(("oracle-one-hot-concat-order", f"MultiDiscrete observation {xt['md_row']['vals']} of nvec {xt['md_row']['nvec']}: network input {xt['md_row']['feat']}, expected {want}"))
+        k += 1
+    st = xt.get("state")
+    if st:
+        if "exception" in st:
+            probs.append(("oracle-state-argument-rejected", f"predict(obs, state=..., episode_start=...) raised {st['exception']}"))
+        elif not (st["same_object"] and st["same_action"] and st["none_when_none"]):
+            probs.append(("oracle-state-not-passed-through", f"non-recurrent policy: predict with state/episode_start gave {st}"))
+    ll = xt.get("lowlevel")
+    if ll:
+        if "exception" in ll:
+            probs.append(("oracle-lowlevel-call-failed", ll["exception"]))
+        else:
+            n_ = case["n"]
+            import numpy as _np
+
+            if ll["raw_shape"][0] != n_ or int(_np.prod(ll["raw_shape"][1:])) != len(ll["lo"]):
+                probs.append(("oracle-lowlevel-shape", f"policy._predict on a batch of {n_} returned shape {ll['raw_shape']} for an action space of {len(ll['lo'])} coordinates"))
+            if ll["squash"] and (ll["raw_min"] < -1 - 1e-6 or ll["raw_max"] > 1 + 1e-6):
+                probs.append(("oracle-squashed-output-outside-unit", f"squash_output policy: low-level output in [{ll['raw_min']}, {ll['raw_max']}]"))
+            if ll["actor_same"] is False:
+                probs.append(("oracle-actor-forward-differs", "policy.actor(obs, deterministic=True) differs from policy._predict(obs, deterministic=True)"))
+            exp = [(lo + 0.5 * (x + 1.0) * (hi - lo)) if ll["squash"] else min(max(x, lo), hi) for lo, hi, x in zip(ll["lo"], ll["hi"], ll["raw"])]
+            if any(abs(a - b) > 1e-5 * (1 + abs(a)) for a, b in zip(exp, ll["pred"])):
+                probs.append(("oracle-predict-not-rescaled-lowlevel", f"predict returned {ll['pred']}, low-level output {ll['raw']} -> expected {exp} (squash_output={ll['squash']}, bounds {ll['lo']}..{ll['hi']})"))
+            if not all(vals[k]):
+                probs.append(("model-correspondence-predict-value", f"predict {ll['pred']} vs model of low-level {ll['raw']} (squash={ll['squash']}): {vals[k]}"))
+            k += 1
     if ps["kind"] == "discrete":
         oh = vals[len(impl["trials"])]
         n = ps["n"]
